@@ -172,6 +172,11 @@ class TextTyping(object):
                 k = self.kind(fi, a)
                 if k in ('T', 'LT'):
                   ch |= self._set(self.param, (callee.qualname, params[i]), k)
+            for kw in x.keywords:
+              if kw.arg in params:
+                k = self.kind(fi, kw.value)
+                if k in ('T', 'LT'):
+                  ch |= self._set(self.param, (callee.qualname, kw.arg), k)
         elif isinstance(x, ast.Return) and x.value is not None:
           k = self.kind(fi, x.value)
           if k:
@@ -258,6 +263,20 @@ def run(chk):
     key = next((k for k in ALLOWED if k == (top, subject)), None)
     if key is None:
       key = _allowed_through_parameter(m, fi, subject)
+    if key is None:
+      # a local that merely names the confirmed text (`meat = s[1:-1]`)
+      subj_node = node.comparators[0] if isinstance(node, ast.Compare) else \
+          (node.func.value if isinstance(node.func, ast.Attribute) else None)
+      if isinstance(subj_node, ast.Name):
+        try:
+          fv_ = FnView.of(repo, fi)
+          wide = norm(fv_.expand(subj_node, 2))
+          if wide == subj_node.id:
+            rv = fv_.reaching_value(subj_node)
+            wide = norm(rv) if rv is not None else None
+        except AnalysisError:
+          wide = None
+        key = next((k for k in ALLOWED if k == (top, wide)), None)
     if key is not None:
       seen_allowed.add(key)
       chk.ob('C15-R1', True, None, 'confirmed site %s' % text, ALLOWED[key], fi=fi, node=node)
